@@ -30,6 +30,7 @@ type variant struct {
 	Reverse                                     bool `json:",omitempty"`
 	Resplit                                     int  `json:",omitempty"` // re-divide all lines among this many files
 	Stdin                                       bool `json:",omitempty"` // feed the concatenated input on standard input
+	StdinPauseMs                                int  `json:",omitempty"` // pause in the middle of standard input (forces the 250 ms time flush)
 }
 type c03In struct {
 	Cmd      string        `json:"cmd"`
@@ -70,6 +71,8 @@ func extractString(t []pipe.KPiece) string {
 		switch p.Kind {
 		case "group":
 			parts = append(parts, fmt.Sprintf("{%d}", p.Idx))
+		case "line":
+			parts = append(parts, "{line}")
 		case "lit":
 			if p.Text != "\x00" {
 				parts = append(parts, p.Text)
@@ -136,13 +139,29 @@ func runVariant(in c03In, v variant, dir string) runObs {
 	args = append(args, paths...)
 	cmd := exec.Command(rareBin, args...)
 	cmd.Env = append(os.Environ(), fmt.Sprintf("GOMAXPROCS=%d", v.Gomaxprocs))
-	if v.Stdin {
+	var feed func()
+	if v.Stdin && v.StdinPauseMs > 0 {
+		pw, err := cmd.StdinPipe()
+		if err != nil {
+			return runObs{Code: -1, Note: err.Error()}
+		}
+		cut := bytes.LastIndexByte(all[:len(all)/2+1], '\n') + 1
+		feed = func() {
+			pw.Write(all[:cut])
+			time.Sleep(time.Duration(v.StdinPauseMs) * time.Millisecond)
+			pw.Write(all[cut:])
+			pw.Close()
+		}
+	} else if v.Stdin {
 		cmd.Stdin = bytes.NewReader(all)
 	}
 	var stdout, stderr bytes.Buffer
 	cmd.Stdout, cmd.Stderr = &stdout, &stderr
 	done := make(chan error, 1)
 	cmd.Start()
+	if feed != nil {
+		go feed()
+	}
 	go func() { done <- cmd.Wait() }()
 	select {
 	case err := <-done:
@@ -207,6 +226,9 @@ func mkCase(in c03In, idx int) Case {
 	for _, v := range in.Variants {
 		if v.Stdin {
 			tags = append(tags, "stdin")
+		}
+		if v.StdinPauseMs > 0 {
+			tags = append(tags, "stdin-pause(time-flush)")
 		}
 		if v.Resplit > 0 {
 			tags = append(tags, "resplit")
@@ -307,6 +329,34 @@ func genIn(r *Rng) c03In {
 	return in
 }
 
+// a file whose 1024th line ends exactly on the last byte of the 128 KiB read buffer, more lines after it
+func alignedIn() c03In {
+	var b []byte
+	for i := 0; i < 1024; i++ {
+		b = append(b, append(bytes.Repeat([]byte("a"), 123), []byte("|b|1\n")...)...)
+	}
+	for i := 0; i < 500; i++ {
+		b = append(b, append(bytes.Repeat([]byte("c"), 123), []byte("|d|2\n")...)...)
+	}
+	in := c03In{Cmd: "histo", Regex: `^([^|]*)\|([^|]*)\|([^|]*)$`, Extract: []pipe.KPiece{{Kind: "group", Idx: 1}},
+		Files: []c03File{{Name: "aligned.txt", Content: hex.EncodeToString(b)}}}
+	in.Variants = []variant{{Workers: 1, Batch: 1000, Buffer: 1, Readers: 1, Gomaxprocs: 1}, {Workers: 2, Batch: 1000, Buffer: 4, Readers: 1, Gomaxprocs: 4},
+		{Workers: 8, Batch: 3, Buffer: 1, Readers: 1, Gomaxprocs: 16}, {Workers: 2, Batch: 1000, Buffer: 1, Readers: 3, Gomaxprocs: 4, Resplit: 2}}
+	return in
+}
+
+// standard input with a pause longer than the 250 ms auto-flush, keys and increments that use {line}
+func timedIn() c03In {
+	in := c03In{Cmd: "histo", Regex: `^([^|]*)\|([^|]*)\|([^|]*)$`,
+		Extract: []pipe.KPiece{{Kind: "group", Idx: 1}, {Kind: "lit", Text: "\x00"}, {Kind: "line"}},
+		Files:   []c03File{{Name: "in.txt", Content: hex.EncodeToString([]byte("a|x|1\nb|x|1\na|y|1\nc|x|1\nb|y|1\na|z|1\n"))}}}
+	in.Variants = []variant{{Workers: 1, Batch: 1000, Buffer: 1, Readers: 1, Gomaxprocs: 1},
+		{Workers: 1, Batch: 1000, Buffer: 1, Readers: 1, Gomaxprocs: 4, Stdin: true},
+		{Workers: 2, Batch: 1000, Buffer: 1, Readers: 1, Gomaxprocs: 4, Stdin: true, StdinPauseMs: 400},
+		{Workers: 1, Batch: 2, Buffer: 1, Readers: 1, Gomaxprocs: 1, Stdin: true, StdinPauseMs: 300}}
+	return in
+}
+
 func main() {
 	Main(&Prop{
 		Name:   "C03",
@@ -317,6 +367,9 @@ func main() {
 			ins := make([]c03In, n)
 			for i := range ins {
 				ins[i] = genIn(r)
+			}
+			if n > 2 {
+				ins[0], ins[1] = alignedIn(), timedIn()
 			}
 			out := make([]Case, n)
 			var wg sync.WaitGroup
